@@ -985,11 +985,14 @@ package fs
 //@   modifies elems(targetKey)
 //@   ensures forall x {raw(targetKey, x)} :: x < base(targetKey) || x >= base(targetKey) + 16 ==> raw(targetKey, x) == old(raw(targetKey, x))
 
+//@ ghost keyreadfail int log            -- number of key files whose reading / decoding failed
 //@ func ReadKeyFile results(key, err)
 //@   tags C04,C10,C11
 //@   trusted
 //@   requires f != nil
 //@   modifies fpos[f], iofaults
+//@   update keyreadfail = keyreadfail + (err != nil ? 1 : 0)
+//@   ensures err != afero.ErrFileNotFound
 //@   ensures len(key) == 16 && iofaults >= old(iofaults) && fresh(key.$arr)
 //@   ensures[C11] err == nil ==> forall q :: 0 <= q && q < 16 ==> key[q] == hexkey(fcontent[f])[q] @hex-decoded
 //@   ensures iofaults == old(iofaults) ==> true
@@ -1084,6 +1087,7 @@ package fs
 //@   ensures[C13] forall g {fopen[g]} :: fopen[g] ==> old(fopen[g]) @key-files-closed
 //@   ensures[C11] lowered(fileext(requestedPath)) != ".iso" ==> err == afero.ErrFileNotFound && fopen == old(fopen) && iofaults == old(iofaults) @only-iso
 //@   ensures[C11] err == nil ==> len(key) == 16 @key-size
+//@   ensures[C13] keyreadfail > old(keyreadfail) ==> err != nil && err != afero.ErrFileNotFound @a-failed-key-read-is-reported-and-never-taken-for-no-key
 //@   ensures[C11] err == nil && pexists(adjacent) && iofaults == old(iofaults) ==> forall q :: 0 <= q && q < 16 ==> key[q] == hexkey(pcontent(adjacent))[q] @adjacent-key-wins
 //@   ensures forall g {fpos[g]} :: old(allocated(g)) ==> fpos[g] == old(fpos[g])
 
